@@ -443,6 +443,7 @@ func TestRandomOrder(t *testing.T) {
 	}()
 	runs := vfutil.EnvInt("VERIF_RUNS", 60)
 	maxChanges := vfutil.EnvInt("VERIF_MAX_CHANGES", 14)
+	traceRuns := vfutil.EnvInt("VERIF_TRACE_RUNS", runs)
 	var tw *vfutil.TraceWriter
 	if p := os.Getenv("VERIF_TRACE_OUT"); p != "" {
 		tw = vfutil.NewTraceWriter(p)
@@ -455,7 +456,11 @@ func TestRandomOrder(t *testing.T) {
 		prng := rand.New(rand.NewSource(seed ^ 0x5eed)) // parameters; the case itself is a function of (seed, params)
 		p := randParams{Writers: 2 + prng.Intn(2), Observers: 3 + prng.Intn(2), Changes: 6 + prng.Intn(maxChanges-5),
 			PSnap: []float64{0.1, 0.2, 0.35}[prng.Intn(3)], PSync: 0.3, PNoPath: 0.2, PDup: 0.2, PReject: 0.5, History: 3}
-		runRandomOrderCase(e, rep, rand.New(rand.NewSource(seed)), seed, p, tw)
+		ctw := tw
+		if i >= traceRuns { // later runs: Go oracles only
+			ctw = nil
+		}
+		runRandomOrderCase(e, rep, rand.New(rand.NewSource(seed)), seed, p, ctw)
 		rep.Case(fmt.Sprintf("w%d-o%d-c%d-s%.2f", p.Writers, p.Observers, p.Changes, p.PSnap))
 		rep.AddReplayed(1)
 		if i < 2 {
